@@ -39,6 +39,14 @@ def bracket {σ} (c : Conn σ) (body : List (σ → Option σ)) : Conn σ × Boo
       | none => ((step c .rollback).getD c, false)
   go c body
 
+/-- `remove`: one `with conn:` bracket per matched lexicon (its extensions and the lexicon itself),
+in order; the first failing bracket ends the loop (the exception propagates) -/
+def brackets {σ} (c : Conn σ) : List (List (σ → Option σ)) → Conn σ × Bool
+  | [] => (c, true)
+  | b :: rest =>
+    let r := bracket c b
+    if r.2 then brackets r.1 rest else r
+
 /-! ### classification of a recorded statement stream -/
 
 inductive Kind
